@@ -242,6 +242,21 @@ func dethunkListDepthFirst(list []interface{}) {
 	}
 }
 
+// dethunkValueDepthFirst forces v if it is a thunk and then everything deferred
+// inside the value it produced, depth first; it returns the forced value.
+func dethunkValueDepthFirst(v interface{}) interface{} {
+	if f, ok := v.(func() interface{}); ok {
+		v = f()
+	}
+	switch val := v.(type) {
+	case map[string]interface{}:
+		dethunkMapDepthFirst(val)
+	case []interface{}:
+		dethunkListDepthFirst(val)
+	}
+	return v
+}
+
 type collectFieldsParams struct {
 	ExeContext           *executionContext
 	RuntimeType          *Object // previously known as OperationType
